@@ -564,10 +564,14 @@ class _Builder:
 def hierarchies(draw, tier='quick'):
     b = _Builder(draw)
     b.mood = draw(_w([('success', 3), ('mixed', 7), ('one_bad', 2)]))
+    # (the directory of a suite is no part of the patterns written in it: names with * ? [ ] are directory names
+    # like any other)
     root_style = draw(_w([('main.suite', 5), ('top/main.suite', 2), ('top', 2), ('./main.suite', 1),
-                          ('top/exactly.suite', 1)]))
+                          ('top/exactly.suite', 1), ('t[1]/main.suite', 1), ('t[1]', 1), ('u?x/main.suite', 1)]))
     root_path = {'main.suite': 'main.suite', './main.suite': 'main.suite', 'top/main.suite': 'top/main.suite',
-                 'top': 'top/exactly.suite', 'top/exactly.suite': 'top/exactly.suite'}[root_style]
+                 'top': 'top/exactly.suite', 'top/exactly.suite': 'top/exactly.suite',
+                 't[1]/main.suite': 't[1]/main.suite', 't[1]': 't[1]/exactly.suite',
+                 'u?x/main.suite': 'u?x/main.suite'}[root_style]
     b.gen_suite(root_path, 1, None)
     fault = None
     if b.chance(42, 100):
